@@ -1123,11 +1123,19 @@ int module_load(
     if (block_data == NULL)
       continue;
 
-    ELF* elf = (ELF*) yr_calloc(1, sizeof(ELF));
-    if (elf == NULL)
-      return ERROR_INSUFFICIENT_MEMORY;
+    // Reuse the (still empty) ELF structure allocated for a previous block that
+    // turned out not to be an ELF file, instead of leaking it.
+    ELF* elf = (ELF*) module_object->data;
 
-    module_object->data = elf;
+    if (elf == NULL)
+    {
+      elf = (ELF*) yr_calloc(1, sizeof(ELF));
+      if (elf == NULL)
+        return ERROR_INSUFFICIENT_MEMORY;
+
+      module_object->data = elf;
+    }
+
     int class_data = get_elf_class_data(block_data, block->size);
 
     if (class_data == CLASS_DATA(ELF_CLASS_32, ELF_DATA_2LSB) &&
